@@ -404,6 +404,14 @@ def r22_closure(ctx):
                   'self = Fraction.__new__(cls, numerator, denominator); return self',
                   'Rational.__new__ builds values without Fraction.__new__ on some path (or stores numerator/denominator itself): '
                   'un-normalised values break ==, <, abs and min')
+        # the given denominator is replaced only when none was given
+        dname = rn.params[2] if len(rn.params) > 2 else None
+        dstores = [n for n in rn.own_nodes() if isinstance(n, ast.Assign) and isinstance(n.targets[0], ast.Name) and n.targets[0].id == dname]
+        okd = all(isinstance(n.parent, ast.If) and n in n.parent.body and isinstance(n.parent.test, ast.Compare) and len(n.parent.test.ops) == 1
+                  and isinstance(n.parent.test.ops[0], ast.Is) and unparse(n.parent.test.left) == dname
+                  and isinstance(n.parent.test.comparators[0], ast.Constant) and n.parent.test.comparators[0].value is None for n in dstores)
+        ctx.check(okd, R, dstores[0] if dstores else rn.node, rn, 'Rational(n, d) keeps the denominator it is given', 'the default denominator is substituted only under `%s is None`' % dname,
+                  'Rational.__new__ overwrites a denominator that was supplied', nontrivial=False)
     rmin = rat.methods.get('min')
     rr_ = [n for n in rmin.own_nodes() if isinstance(n, ast.Return)] if rmin else []
     ctx.check(len(rr_) == 1 and unparse(rr_[0].value) == 'min(%s)' % (rmin.params[-1] if rmin else 'vals'), R, rmin.node if rmin else rat.node, rmin or rat.qualname,
